@@ -356,16 +356,17 @@ func c13Job(raw json.RawMessage) (any, error) {
 					}
 					var want string
 					if win == nil {
-						want = fmt.Sprintf("st=404 h=404 trail=%s router=%q path=%q ps={}", trail(guse), "", path)
+						want = fmt.Sprintf("st=404 h=404 trail=%s router=%q path=%q ps={} route=%q", trail(guse), "", path, "")
 					} else {
 						e := ExpectFor(table, produced.path)
 						ps := map[string]string{}
 						for k, v := range produced.params {
 							ps[k] = v
 						}
-						hid, st := "404", 404
+						hid, st, route := "404", 404, ""
 						if !e.NotFound {
 							oc := e.Outcomes[0]
+							route = oc.Pattern
 							for k, v := range oc.Params {
 								ps[k] = v
 							}
@@ -380,9 +381,14 @@ func c13Job(raw json.RawMessage) (any, error) {
 						} else {
 							// a 404 inside the router reports no route parameters; the matcher's remain
 						}
-						want = fmt.Sprintf("st=%d h=%s trail=%s router=%q path=%q ps=%s", st, hid, trail(win.use), win.name, produced.path, hv.ParamsString(ps))
+						want = fmt.Sprintf("st=%d h=%s trail=%s router=%q path=%q ps=%s route=%q", st, hid, trail(win.use), win.name, produced.path, hv.ParamsString(ps), route)
 					}
-					got := fmt.Sprintf("st=%d h=%s trail=%s router=%q path=%q ps=%s", o.Status, o.CoreID, strings.Join(o.Trail, ","), o.Router, o.Path, hv.ParamsString(o.Params))
+					// route: the pattern of Route.Node() as the handler sees it ("" = no node: a 404 of the group or of a router)
+					gotRoute := o.Pattern
+					if !o.NodeNil && o.Pattern == "" {
+						gotRoute = "<node with empty pattern>"
+					}
+					got := fmt.Sprintf("st=%d h=%s trail=%s router=%q path=%q ps=%s route=%q", o.Status, o.CoreID, strings.Join(o.Trail, ","), o.Router, o.Path, hv.ParamsString(o.Params), gotRoute)
 					if o.Paniced {
 						got = fmt.Sprintf("panic: %v", o.Panic)
 					}
